@@ -356,3 +356,34 @@ Proof.
   rewrite app_nth2 by lia. replace (S (length pre) - length pre)%nat with 1%nat by lia. cbn [nth].
   destruct svc; [congruence|]. destruct m; [congruence|]. reflexivity.
 Qed.
+
+(* ---- the Spec a client's unary interceptors see (client.go, NewClient's callUnary) ----
+   callUnary stamps the client's own Spec on the request before the interceptor
+   chain runs — unconditionally [client_call_unary_stamps_spec_unconditionally,
+   extracted by the translator: the assignment is a top-level statement of the
+   function literal, not under a condition], so a Request value that went
+   through another client, or that a relay handler received, carries this
+   client's Spec. *)
+Section ClientSpec.
+Variable spec : Type.
+Definition stamped_spec (prev : option spec) (client_spec : spec) : spec :=
+  if client_call_unary_stamps_spec_unconditionally then client_spec
+  else match prev with Some s => s | None => client_spec end.
+
+Lemma stamped_spec_is_the_clients : forall prev client_spec,
+  stamped_spec prev client_spec = client_spec.
+Proof. reflexivity. Qed.
+
+(* one Request value through a list of clients: each sees its own Spec *)
+Fixpoint through_clients (prev : option spec) (clients : list spec) : list spec :=
+  match clients with
+  | [] => []
+  | c :: r => let s := stamped_spec prev c in s :: through_clients (Some s) r
+  end.
+
+Lemma through_clients_own_spec : forall clients prev, through_clients prev clients = clients.
+Proof.
+  induction clients as [|c r IH]; intro prev; cbn [through_clients]; [reflexivity|].
+  rewrite stamped_spec_is_the_clients, IH. reflexivity.
+Qed.
+End ClientSpec.
